@@ -396,7 +396,7 @@ fn main() {
     }
     let mut sampled4 = 0usize;
     {
-        let k = if thorough { 9000 } else { 500 };
+        let k = if thorough { 9000 } else { 250 };
         for _ in 0..k {
             let mask = (rng.next() & 0xffff) as u32;
             // sparse masks accept more often
@@ -422,7 +422,7 @@ fn main() {
         }
     }
     {
-        let k = if thorough { 10000 } else { 900 };
+        let k = if thorough { 10000 } else { 500 };
         for _ in 0..k {
             let ext = rng.below(125) as u32;
             let mut mask = (rng.next() & 0x1ff) as u32;
@@ -437,7 +437,7 @@ fn main() {
 
     // --- random graphs up to 12 nodes
     {
-        let k = if thorough { 4000 } else { 250 };
+        let k = if thorough { 4000 } else { 150 };
         for _ in 0..k {
             let n = 3 + rng.below(10);
             let s = random_set(&mut rng, n);
@@ -447,7 +447,7 @@ fn main() {
 
     // --- fallback prefixes
     {
-        let k = if thorough { 4000 } else { 400 };
+        let k = if thorough { 4000 } else { 250 };
         for _ in 0..k {
             let (p, s) = prefix_set(&mut rng);
             run.case(&p, &s, &["prefix"], None);
